@@ -25,11 +25,11 @@ def run(chk):
     chk.rule('C11-R3', 'kernel-to-kernel calls establish the callee contract (PROVEN structurally, or ASSUMED with the contract reason)', 10)
     chk.rule('C11-R2', 'every njit kernel of the anchored files was analysed (no kernel skipped)', 8)
     chk.rule('C11-R4', 'caller facts the subsample kernels\' contracts rest on: write offsets are one cumulative sum over the loaded samples in the order A, B; '
-                       'the tables are allocated with the last offset of the last sample; each file gets its own rows (obligations C01-R1/R3/R8)', 8)
+                       'the tables are allocated with the last offset of the last sample; each file gets its own rows; the lengths the kernels read with are the ones the slots were sized from -- cleaned-away halos zeroed in the stored column (obligations C01-R1/R2/R3/R8)', 8)
     chk.assume('numba semantics: negative scalar indices wrap, slices clamp, scalars assigned in a prange body are private')
     chk.assume('value-dependent accesses are ASSUMED relative to the contract entries in avs/spec/contracts.py (each printed with its reason in the evidence)')
     from . import c01
-    chk.import_from(c01.run, 'C01', ('C01-R1', 'C01-R3', 'C01-R8'), 'C11-R4')
+    chk.import_from(c01.run, 'C01', ('C01-R1', 'C01-R2', 'C01-R3', 'C01-R8'), 'C11-R4')
     total = 0
     kernels = 0
     for rel in FILES:
